@@ -1,7 +1,9 @@
 """C11 case generator: directed corpus (the DESIGN appendix B-11 shapes and every generic kind) followed by a seeded
 random stream.  A case = {own, fns:[{key, self, params, args:[[name, ty]], ret, yield}], label}; `ty` is a JSON tree
 over the pool of harness.render_fixture."""
-from harness.render_fixture import FUNC_SHAPES, LONG, POOL, TARGETS
+import itertools
+
+from harness.render_fixture import ALIASES, FUNC_SHAPES, LONG, POOL, STDLIB_UNDERSCORE, TARGETS
 
 IDX = {mq: i for i, mq in enumerate(POOL)}
 
@@ -112,6 +114,66 @@ def directed():
         case("foo", [fn("f0", {"a": TD({"x": L(INT)})}, L(INT))], "x:td field typing name"),
         case("foo", [fn("f0", {"a": TD({"x": BAZ})})], "x:td field own class"),
     ]
+    return out + wave3()
+
+
+def wave3():
+    """Shapes added after the third wave of seeded changes."""
+    BAZ, OTHER = C("foo", "Baz"), C("foo", "Other")
+    FOOCLS, FOOIN, QUX = C("barfoo", "foo"), C("barfoo", "foo.Inner"), C("barfoo", "Qux")
+    HANDLE = C("_impl", "Handle")
+    RLOCK, STRUCT, DIALECT, RANDOM, SQ = (C(m, q) for m, q in (("_thread", "RLock"), ("_struct", "Struct"), ("_csv", "Dialect"),
+                                                                ("_random", "Random"), ("_queue", "SimpleQueue")))
+    SIO = C("_io", "StringIO")
+    REG, ENT_INT, ENT_STR, PAIR = C("shapes", "Registry"), ["alias", 0], ["alias", 1], ["alias", 2]
+    Z, ZA, ZAB = C("zed", "Z"), C("zed.a", "ZA"), C("zed.a.b", "ZAB")
+    P, B = C("pkg", "P"), C("pkg.utils", "B")
+    out = [
+        # --- a class named like ANOTHER module, with a nested class, together with that module in one signature ---
+        case("utils", [fn("g3", {"a": FOOIN, "b": BAZ})], "w3:class named like another module"),
+        case("utils", [fn("g3", {"a": BAZ, "b": FOOIN, "c": FOOCLS})], "w3:class named like another module"),
+        case("utils", [fn("g3", {"a": L(FOOIN), "b": TY(FOOIN), "c": D(STR, OTHER)}, U(FOOIN, BAZ, NONE))], "w3:class named like another module"),
+        case("foo", [fn("g3", {"a": FOOIN, "b": BAZ, "c": FOOCLS}, DD(STR, FOOIN))], "w3:class named like the target module"),
+        case("barfoo", [fn("g3", {"a": FOOIN, "b": OTHER, "c": QUX}, T(FOOCLS, OTHER))], "w3:class named like another module, own"),
+        case("utils", [fn("f1", {"a": FOOIN, "b": OTHER}), fn("K.m1", {"a": BAZ, "b": FOOIN}, FOOIN, OTHER)], "w3:class named like another module"),
+        # --- underscore modules: only `_io` has the `io` twin the import block names ---
+        case("foo", [fn("g3", {"a": RLOCK, "b": STRUCT, "c": HANDLE})], "w3:underscore modules"),
+        case("foo", [fn("g3", {"a": DIALECT, "b": RANDOM, "c": SQ}, SIO)], "w3:underscore modules"),
+        case("foo", [fn("f1", {"a": L(RLOCK), "b": HANDLE}, D(STR, SQ), STRUCT)], "w3:underscore modules"),
+        case("foo", [fn("f0", {"a": RLOCK})], "w3:underscore modules, _thread alone"),
+        case("foo", [fn("f0", {"a": HANDLE})], "w3:underscore modules, user module alone"),
+        case("_impl", [fn("g3", {"a": HANDLE, "b": RLOCK, "c": SIO}), fn("K.m1", {"a": DIALECT, "b": HANDLE})], "w3:underscore target module"),
+        # --- subscripted user generics nested in a class (rendered by repr(), imported by their root class) ---
+        case("foo", [fn("f0", {"a": ENT_INT})], "w3:nested generic alias alone"),
+        case("foo", [fn("f0", {"a": L(ENT_STR)})], "w3:nested generic alias in List"),
+        case("foo", [fn("g3", {"a": ENT_INT, "b": PAIR, "c": REG}, D(STR, ENT_STR))], "w3:nested generic alias"),
+        case("foo", [fn("f1", {"a": DD(STR, ENT_INT), "b": ENT_STR}, TY(C("shapes", "Registry.Entry")), PAIR)], "w3:nested generic alias, repr route"),
+        case("shapes", [fn("f1", {"a": ENT_INT, "b": PAIR}, L(ENT_STR))], "w3:nested generic alias, own module"),
+        case("foo", [fn("f0", {"a": C("shapes", "Registry.Entry")}, C("shapes", "Registry.Pair"))], "w3:nested generic class, unsubscripted"),
+    ]
+    # --- a package, its sub-package and a module below it in ONE signature, every order, several target modules ---
+    for own in ("foo", "zed", "zed.a", "zed.a.b"):
+        for perm in itertools.permutations([Z, ZA, ZAB]):
+            out.append(case(own, [fn("g3", dict(zip("abc", perm)))], "w3:package chain"))
+    out += [case("foo", [fn("g3", {"a": ZAB, "b": Z})], "w3:package chain, two"),
+            case("foo", [fn("g3", {"a": Z, "b": ZAB}, ZA)], "w3:package chain, return"),
+            case("zed", [fn("f1", {"a": L(ZAB), "b": ZA}, D(Z, ZAB))], "w3:package chain, nested"),
+            case("pkg", [fn("g3", {"a": P, "b": B, "c": ZA}, Z)], "w3:two packages")]
+    # --- every typing name at every kind of position, as the ONLY annotation of the module stub: whatever the text uses
+    #     must be imported because of this one position (imports are merged module-wide, so any second user masks a miss) ---
+    kinds = {"List": L(INT), "Set": S(INT), "Dict": D(STR, INT), "DefaultDict": DD(STR, INT), "Tuple": T(INT, STR), "Tuple0": T(),
+             "TupleVar": TV(INT), "Type": TY(INT), "Iterator": IT(INT), "Generator": G(INT, NONE, STR), "Callable": CALLABLE,
+             "Any": ANY, "Union": U(INT, STR), "Optional": U(INT, NONE), "Union3None": U(INT, NONE, STR), "class": BAZ}
+    for name, k in kinds.items():
+        positions = {
+            "param": fn("f0", {"a": k}), "None default": fn("f1", {"b": k}), "method None default": fn("K.m1", {"b": k}),
+            "return": fn("f0", {}, k), "yield": fn("f0", {}, None, k), "yield+return": fn("f0", {}, STR, k),
+            "return of generator": fn("f0", {}, k, STR),
+            "under Optional": fn("f0", {"a": U(k, NONE)}), "under DefaultDict": fn("f0", {"a": DD(STR, k)}),
+            "under List": fn("f0", {"a": L(k)}), "under Dict, wrapped": fn(LONG, {"second_parameter": D(STR, k)}),
+        }
+        for pos, f in positions.items():
+            out.append(case("utils", [f], f"w3:sole user:{name} {pos}"))
     return out
 
 
@@ -140,7 +202,10 @@ class Gen:
     def leaf(self, classes):
         r = self.rnd.random()
         if r < 0.55 and classes:
-            return ["cls", self.rnd.choice(classes)]
+            c = self.rnd.choice(classes)
+            if POOL[c][0] == "shapes" and POOL[c][1] != "K" and self.rnd.random() < 0.5:
+                return ["alias", self.rnd.randrange(len(ALIASES))]
+            return ["cls", c]
         if r < 0.9:
             return self.rnd.choice(BUILTINS)
         if r < 0.95:
@@ -203,7 +268,7 @@ class Gen:
         rnd = self.rnd
         own = rnd.choice(TARGETS)
         wild = rnd.random() < 0.3
-        mods = rnd.sample([m for m in TARGETS + ["_io"]], rnd.choice([1, 2, 2, 3]))
+        mods = rnd.sample([m for m in TARGETS + STDLIB_UNDERSCORE], rnd.choice([1, 2, 2, 3]))
         if own not in mods and rnd.random() < 0.5:
             mods.append(own)
         classes = [i for i, (m, q) in enumerate(POOL) if m in mods and (q != "K" or (wild and rnd.random() < 0.2))]
